@@ -18,6 +18,7 @@ import (
 	"github.com/FollowTheProcess/spok/logger"
 	"github.com/FollowTheProcess/spok/parser"
 	"github.com/FollowTheProcess/spok/shell"
+	"github.com/FollowTheProcess/spok/simhook"
 	"github.com/fatih/color"
 	"github.com/joho/godotenv"
 	"github.com/juju/ansiterm/tabwriter"
@@ -394,6 +395,9 @@ func (a *App) clean(spokfile *file.SpokFile) error {
 	}
 
 	for _, file := range toRemove {
+		if hookErr := simhook.Remove("clean.remove", file); hookErr != nil {
+			return fmt.Errorf("Could not remove %s: %w", file, hookErr)
+		}
 		err := os.RemoveAll(file)
 		if err != nil {
 			return fmt.Errorf("Could not remove %s: %w", file, err)
